@@ -175,6 +175,11 @@ class Gen:
             m["disp"] = rng.choice([0, 16, -16, 0x12345678])
         elif style == "abs":
             m["disp"] = rng.choice([0x1000, 0x7FFFFFF0, 0x12345678])
+            if mode == 64 and rng.chance(1, 3) and form["name"] not in ("lea", "bndldx", "bndstx", "bndmk"):
+                # (lea: AsmJit legitimately uses the 32-bit operand size instead of a prefix; bnd*: a base register is added)
+                # unsigned 32-bit addresses with bit 31 set: not reachable by a sign-extended disp32, the assembler has to
+                # insert an address-size prefix in front of the bytes it has already produced
+                m["disp"] = rng.choice([0x80000000, 0xFFFFFFF0, 0xFFFFFFFF, 0x9ABCDEF0])
             # in 64-bit mode a plain absolute address is relocatable ([rip+rel] + relocation entry): that path is C04's
             m["addr"] = "abs" if (mode == 64 or rng.chance(1, 2)) else "default"
         elif style == "rip":
@@ -355,6 +360,27 @@ class Gen:
                     continue
                 ops[oi] = ("R",) + r
                 variants.append(("reg%d-oob" % oi, ops, 0, None))
+        # implicit memory operands (string instructions, maskmov*, xlatb): the registers are fixed, but the DS:[zSI]-style
+        # operand takes any segment override and both take the other address size - with valid registers, so that these are
+        # judged as ordinary cases (the generic styles below give such forms registers that do not exist for them)
+        impl = [i for i, o in enumerate(opers) if o["mem"] and o.get("memSegment") in ("es", "ds") and not o["mem"].startswith("moff")]
+        if impl:
+            iops = self.instantiate(form, mode, True, None)
+            if iops and all(iops[i][0] == "M" and iops[i][1]["base"] and not iops[i][1]["index"] for i in impl):
+                small = "gp32" if mode == 64 else "gp16"
+                for seg in (0, 2, 3, 4, 5, 6):
+                    for a32 in (False, True):
+                        if not seg and not a32:
+                            continue
+                        ops = list(iops)
+                        for i in impl:
+                            m = dict(ops[i][1])
+                            if a32:
+                                m["base"] = (small, m["base"][1])
+                            if seg and opers[i].get("memSegment") == "ds":
+                                m["seg"] = seg
+                            ops[i] = ("M", m)
+                        variants.append(("implicit-%s%s" % ("seg%d" % seg if seg else "", "-a32" if a32 else ""), ops, 0, None))
         # memory form sweeps
         if mem_idx:
             styles = ["b", "bd8", "bd32", "bis", "bisd", "isd", "abs", "bsp", "bbp", "seg"]
